@@ -50,4 +50,10 @@ for _fn, _pre in (("cast_to_float", "cast_to_float"), ("convert_to_float_modular
 for _h in ("float_conversion_values_i16", "float_conversion_values_i32"):
     K("ib." + _h, ["C15", "C03", "C01"], "jxl-render", _IM, _IMM, _h, "bounded:2x1 grid (every sample, every bit depth 1..=31)",
       ["ImageBuffer::cast_to_float", "ImageBuffer::convert_to_float_modular"],
-      "cast: out[i] == in[i] as f32; convert: out[i] == BitDepth::parse_integer_sample(in[i]); dimensions kept", timeout=300)
+      "cast: out[i] == in[i] as f32; convert: out[i] == BitDepth::parse_integer_sample(in[i]); dimensions kept", timeout=1500, tier="thorough")
+
+# the ImageBuffer rows need 15-30 GB in CBMC (two AlignedGrid allocations plus the enum's drop glue): thorough tier, run few at a time
+for _o in OBLIGATIONS:
+    if _o["id"].startswith("ib."):
+        _o["tier"] = "thorough"
+        _o["rss_gb"] = 26
